@@ -284,6 +284,7 @@ def run(ctx):
         res.add(Finding('C03', 'C03.e', 'R-PROV', roles.play.file, roles.play.qualname, roles.play.node.lineno, 'recorded outputs source', why))
     from . import common as _r7
     _r7.import_clauses(ctx, res, 'C01', ['C01.g'], 'C03', 'C03.p', 'R-AGREE', 'the copy through which recorded outputs are read returns an equal value', floor=1)
+    _r7.import_clauses(ctx, res, 'C05', ['C05.c'], 'C03', 'C03.q', 'R-MUSTPASS', 'an output sent while recording is captured (or the recording discarded) whatever the sampling state', floor=1)
     return res
 
 
